@@ -18,6 +18,8 @@ THEOREMS = {
         'RsomeV.C02.rc_exact_lp',
         'RsomeV.C02.rc_complete_of_dual',
         'RsomeV.C02.rc_exact_conic_partial',
+        'RsomeV.C02.rc_complete_late_lp',
+        'RsomeV.C02.rc_exact_late_lp',
     ],
     'RsomeV.Props.C01': ['RsomeV.C01.rc_sound'],
     'RsomeV.Props.C08': ['RsomeV.C08.lp_dual_strong'],
